@@ -121,6 +121,12 @@ def run_property(prop, tier, seed, jobs=None, only=None, verbose=False):
             any_reproduced = any_reproduced or reproduced
         else:
             path, reproduced = replay.write_only(prop, o), False
+        if not reproduced and o.get("weak"):
+            # refuted only under an uninterpreted model of a standard-library function, and the
+            # real code did not reproduce it: undecided, not a violation
+            lines.append(f"UNDECIDED {prop} {o['name']}: fails only under an uninterpreted model of {', '.join(o['weak'])} and did not reproduce on the real code (replay {path})")
+            exit_code = max(exit_code, EXIT_UNDECIDED) if exit_code != EXIT_ENGINE else exit_code
+            continue
         violations += 1
         tail = "" if reproduced else " no-failing-input-found"
         lines.append(f"VIOLATION property={prop} replay={path}{tail}")
@@ -210,6 +216,9 @@ IMPORTS = {
             ("C03", lambda name: True, False, lambda fam: True), ("C04", lambda name: True, False, lambda fam: True),
             ("C05", lambda name: True, False, lambda fam: True), ("C07", lambda name: True, False, lambda fam: True)],
     # C01 / C03 (bare numbers for one-variable expressions) rest on the constructors' Vars contract
+    # C13's "evaluating the printed text yields an object *equal* to the original" is the
+    # structural round trip plus the contract of the real __eq__ (C12) it is observed through
+    "C13": [("C12", lambda name: ".__eq__" in name, False, lambda fam: fam.endswith(".__eq__"))],
     "C01": [("C09", _memo, True, lambda fam: False),
             ("C09", lambda name: "._reset_evaluation_cache/" in name, False, lambda fam: fam.endswith("._reset_evaluation_cache")),
             ("C14", lambda name: ".__init__" in name, False, lambda fam: fam.endswith(".__init__"))],
